@@ -73,6 +73,7 @@ SITE = {
     "exceeds-vmax": "RMAX.train_on.q_values",
     "unknown-pair-not-optimistic": "RMAX.train_on.q_values",
     "reachable-state-without-q": "RMAX.train_on.q_values",
+    "listed-state-without-q": "RMAX.train_on.q_values",
     "empirical-bellman-residual": "RMAX._value_iteration",
     "policy-not-greedy": "RMAX._create_policy",
     "unknown-pair-not-exactly-optimistic": "RMAX.train_on.q_values",
@@ -169,6 +170,8 @@ def make_case(rng, *, shape=None, tiny=False, neartie=False):
                "seed": rng.choice([0, 1, 2, 3, 7, 11, 42, 12345, 2 ** 31 - 1]) if rng.random() < 0.5 else rng.randrange(10 ** 6),
                "diff": list(rng.choice(DIFFS)),
                "reuse": REUSE.get(shape, 0)}
+        if shape == "rmax-above-maximum-reward":
+            cfg["rmax_plus"] = rng.choice([1, 0.5, 9])
         if cfg["reuse"] in ("same-mdp", "same-shape", "other-discount"):
             cfg["warm_episodes"] = rng.choice([2, 5, 10, 20]) * cfg["thr"]
         if cfg["reuse"] == "other-discount":
@@ -191,6 +194,10 @@ def make_cases(rng, n, n_special):
             cases.append(make_case(rng, shape="learner-reused-on-other-discount-mdp"))
         for _ in range(10):
             cases.append(make_case(rng, neartie=True))
+    for _ in range(n_special + n_special // 2):
+        # a learner configured with more than the MDP's maximal reward: it must refuse, or else still respect the
+        # statement's bound (the MDP's maximal reward over one minus the discount)
+        cases.append(make_case(rng, shape="rmax-above-maximum-reward"))
     for _ in range(2 * n_special):          # few: every planning call takes thousands of sweeps
         cases.append(make_slow_case(rng))
     return cases
@@ -370,7 +377,9 @@ def run_real(case):
     out["rmax_f"], out["g_f"] = rmax_f, float(b.mdp.discount_rate)
     diff = cfg["diff"][0] / cfg["diff"][1]
     rec_cls = _recorder_class()
-    learner = RMAX(episodes=cfg["episodes"], rmax=rmax_f, num_transition_samples=cfg["thr"],
+    rmax_cfg = rmax_f + cfg.get("rmax_plus", 0)
+    out["rmax_cfg"] = rmax_cfg
+    learner = RMAX(episodes=cfg["episodes"], rmax=rmax_cfg, num_transition_samples=cfg["thr"],
                    bellman_convergence_diff=diff, seed=cfg["seed"], event_listener_class=rec_cls)
     import signal
 
@@ -411,7 +420,7 @@ def run_real(case):
             first = (res1, bw, mw)
         res = learner.train_on(b.mdp)
         out.update(collect(res, b, m))
-        if not reuse and not case.get("RE") and case.get("shape") != "slow-mixing":
+        if not reuse and not case.get("RE") and case.get("shape") != "slow-mixing" and not cfg.get("rmax_plus"):
             # the same configuration with the library's default listener: the listener does not touch the random
             # generator, so this run experiences the same history; what it reports is judged against the recorded one
             twin = RMAX(episodes=cfg["episodes"], rmax=rmax_f, num_transition_samples=cfg["thr"],
@@ -426,6 +435,13 @@ def run_real(case):
             res1, bw, mw = first
             out["first"] = dict(collect(res1, bw, mw), b=bw, rmax=out["rmax"], m=mw, rmax_f=out["rmax_f"],
                                 g_f=float(bw.mdp.discount_rate))
+    except AssertionError as e:
+        if cfg.get("rmax_plus"):
+            # configured rmax above the MDP's maximal reward: the library refuses the run, which is fine
+            out["skip"] = "learner refused an rmax above the maximal reward (expected)"
+        else:
+            out["error"] = f"AssertionError: {e}"[:300]
+            out["error_type"] = "AssertionError"
     except MissingLocals as e:
         out["skip"] = f"listener locals() lacks {e}"
         out["drift"] = "listener-locals-missing"
@@ -454,16 +470,24 @@ def quant(x, sc, bound):
     return int(round(x * sc))
 
 
+def set_or_list(labels):
+    try:
+        return set(labels)
+    except TypeError:
+        return list(labels)
+
+
 def to_trace(case, out, tag):
     """Project the recorded run to the abstract trace record read by the spec."""
     m, cfg, b = case["m"], case["cfg"], out["b"]
     N, K, thr, rmax = m["N"], m["K"], cfg["thr"], out["rmax"]
-    sc = scale_for(m, thr, rmax)
+    rbound = max(abs(rmax), math.ceil(abs(out.get("rmax_cfg", rmax))))     # the configured rmax may be larger
+    sc = scale_for(m, thr, rbound)
     if sc is None:
         return None
     g = F(m["GN"], m["GD"])
     diff = F(cfg["diff"][0], cfg["diff"][1])
-    B = F(max(rewards_bound(m), abs(rmax), 1)) / (1 - g)
+    B = F(max(rewards_bound(m), rbound, 1)) / (1 - g)
     clamp = int(2 * B * sc)
     sidx = {lab: i for i, lab in enumerate(b.slabel)}
     aidx = {lab: i for i, lab in enumerate(b.alabel)}
@@ -532,6 +556,7 @@ def to_trace(case, out, tag):
     vmax = F(rmax) / (1 - g)
     rec = {k: m[k] for k in ("N", "K", "PD", "GN", "GD", "ID", "abs", "avail", "P", "R", "p0")}
     eps = F(1, EPSD) if case.get("RE") else F(0)
+    rec["lst"] = [1 if lab in set_or_list(out["state_list"]) else 0 for lab in b.slabel]
     rec.update(thr=thr, rmax=rmax, SC=sc, DQ=math.ceil(diff * sc), EQ=math.ceil(eps * sc), actrule="code", tag=tag,
                TC=math.ceil(1024 * (diff + eps + F(3, sc)) / (1 - g)) + 3,
                orc=1 if sc >= 1024 and oracle_feasible(m, thr, rmax) else 0, ev=ev)   # FarAt works in 1/1024 units
@@ -641,6 +666,8 @@ def py_judge_q(t, cnt, tcnt, rsum, o, reach):
     seen = {s for s in range(N) if any(cnt[s])} | {n for s in range(N) for a in range(K) for n in range(N) if tcnt[s][a][n]}
     if (seen | reach) - set(rows):
         bad.add("reachable-state-without-q")
+    if {s for s in range(N) if t["lst"][s]} - (set(rows) | seen | reach):
+        bad.add("listed-state-without-q")
     return bad
 
 
@@ -947,6 +974,7 @@ def mc_batch(rng, n, big=0):
             continue
         g = F(GN, GD)
         sc = 1024
+        m["lst"] = [1] * N
         m.update(thr=thr, rmax=rmax, SC=sc, DQ=0, EQ=0, TC=math.ceil(1024 * F(3, sc) / (1 - g)) + 3, orc=1,
                  actrule=rng.choice(["code", "any"]), tag=str(len(batch) + 1), ev=[])
         batch.append(m)
